@@ -71,7 +71,7 @@ type Driver[K any, V any] struct {
 	raw          []RawKey
 }
 
-func (d *Driver[K, V]) Raw() []RawKey      { return d.raw }
+func (d *Driver[K, V]) Raw() []RawKey     { return d.raw }
 func (d *Driver[K, V]) setRaw(r []RawKey) { d.raw = r }
 
 func (d *Driver[K, V]) Name() string       { return d.name }
@@ -234,7 +234,9 @@ func buildUniverse[K any](cs []cand[K], cmp func(a, b K) int) ([]cand[K], int) {
 
 // ---- dump conversion and digests --------------------------------------------
 
-type fnvw struct{ h interface{ Write([]byte) (int, error) } }
+type fnvw struct {
+	h interface{ Write([]byte) (int, error) }
+}
 
 func digestDump(d TreeDriver, n *art.VerifNode, size int, withVals bool) string {
 	h := fnv.New64a()
